@@ -1053,6 +1053,75 @@ fn main() {
             );
         }
 
+        // byte arrays that are equal as integers modulo the native modulus (or modulo 2^k) but
+        // differ as arrays: equality tests must tell them apart
+        {
+            use HOp::*;
+            let pm = p_native().clone();
+            let one = BigUint::from(1u32);
+            let mut cases = vec![];
+            let put = |buf: &mut Vec<u8>, at: usize, width: usize, v: &BigUint, be: bool| {
+                let mut b = v.to_bytes_le();
+                b.resize(width, 0);
+                if be {
+                    b.reverse();
+                }
+                buf[at..at + width].copy_from_slice(&b);
+            };
+            for len in [31usize, 32, 33, 40, 64, 70] {
+                for (at, width) in [(0usize, 32usize), (len.saturating_sub(32), 32), (0, 31), (0, 16), (8, 32)] {
+                    if at + width > len {
+                        continue;
+                    }
+                    for be in [false, true] {
+                        let top = &one << (8 * width);
+                        // pairs (w, w') congruent modulo p, modulo 2^(8*width - 1), or adjacent
+                        let mut pairs: Vec<(BigUint, BigUint, &str)> = vec![];
+                        if width == 32 {
+                            pairs.push((BigUint::from(42u32), &pm + 42u32, "congruent-mod-p"));
+                            pairs.push((BigUint::from(0u32), pm.clone(), "congruent-mod-p"));
+                            pairs.push((&top - &pm - 1u32, &top - 1u32, "congruent-mod-p"));
+                        }
+                        pairs.push((BigUint::from(7u32), (&one << (8 * width - 1)) + 7u32, "top-bit"));
+                        pairs.push((BigUint::from(255u32), BigUint::from(256u32), "adjacent"));
+                        for (w1, w2, kind) in pairs {
+                            let mut a = vec![0x5au8; len];
+                            let mut b = a.clone();
+                            put(&mut a, at, width, &w1, be);
+                            put(&mut b, at, width, &w2, be);
+                            for op in [IsEqual, AssertNotEqual, AssertEqual] {
+                                let mut steps = vec![(Load(HType::Bytes(len)), vec![], vec!["a", "b"])];
+                                match op {
+                                    IsEqual => {
+                                        steps.push((IsEqual, vec!["a", "b"], vec!["e"]));
+                                        steps.push((Publish, vec!["e"], vec![]));
+                                    }
+                                    o => steps.push((o, vec!["a", "b"], vec![])),
+                                }
+                                cases.push(Case::fixed(
+                                    &format!("bytes({len}) {kind} window [{at}..{}) {} : {}", at + width, if be { "BE" } else { "LE" }, op.name()),
+                                    steps,
+                                    vec![("a", MVal::Bytes(a.clone())), ("b", MVal::Bytes(b.clone()))],
+                                ));
+                            }
+                        }
+                    }
+                }
+            }
+            p.enumerate(
+                "zkir.bytes.congruent",
+                "two byte arrays of length 31..70 that differ only inside a 16/31/32-byte window whose little- or big-endian integers are congruent modulo the native modulus, differ in the top bit, or are adjacent; is_equal + publish, assert_not_equal, assert_equal: evaluator and circuit agree; every case non-trivial",
+                cases,
+                16,
+                false,
+                |c| {
+                    let mut v = check_case(c, Depth::Full)?;
+                    v.nontrivial = true;
+                    Ok(v.with(c.intent.split(" window").next().unwrap_or("").split(") ").nth(1).unwrap_or("").to_string()))
+                },
+            );
+        }
+
         let small = CaseStrategy { cfg: GenCfg { max_len: 7, err_rate: 0, ..cfg.clone() }, poseidon: poseidon_ref, post: no_post };
         {
             let s = small.clone();
